@@ -1170,8 +1170,11 @@ void run_c19(Judge& j, uint64_t n, int64_t only = -1) {
             j.res.count("hostile_runs");
             if (!ok) continue;
             // recovery
+            for (auto& o : ex->world->h.ops) if (o.t_init == 2 * SEC && o.kind == OpKind::pub1 && o.completions) j.res.count(!o.ec ? "recovery_publishes_acknowledged" : "recovery_publishes_refused_or_failed");
             for (auto& o : ex->world->h.ops)
-                if (o.t_init == 2 * SEC && o.kind == OpKind::pub1 && !(o.completions && !o.ec && o.t_done < sc.end))
+                // (a mutated CONNACK can still be a valid one that announces e.g. Maximum Packet Size 1 or Maximum QoS 0: the
+                // documented refusal of the request is then the correct outcome)
+                if (o.t_init == 2 * SEC && o.kind == OpKind::pub1 && !(o.completions && o.t_done < sc.end && (!o.ec || o.ec.category() == boost::mqtt5::client::get_error_code_category())))
                     j.res.violation("C19", "C19:no-recovery-after-hostile-bytes", "a QoS 1 publish issued 1.8 s after the hostile bytes had not completed 90 virtual seconds later (phase " + std::to_string(phase) + ", chunking " + std::to_string(c) + ")",
                                       "scenario:\n" + sc.describe() + "\nhostile bytes: " + vu::hex(hostile, 200) + "\n" + ex->world->h.dump(700));
             if (phase >= 1) { sigs[c] = chunk_signature(*ex); have[c] = true; }
